@@ -129,9 +129,9 @@ PROPS["C07"] = {
     "level_text": "random assignment / copy / swap / mutable-access histories over four Variant variables of all alternative types including nested lists, arrays and maps built from the current values of other variables, against a value-tree model with value semantics; every variable is compared deeply after every operation, a fresh copy must compare equal, and the scalar conversions are checked where the answer is uncontroversial",
     "level_note": "trusted: the value-tree model and coercion table in harness/c07_variant.cpp (only conversions whose C++ result is defined and documented are compared), ASan, allocation ledger; NaN is not generated; a container is never inserted into itself",
     "technique": "stateful property-based testing against a value-semantics tree model over several aliasing variables",
-    "rule": "opfuzz: histories of 2..size ops from 23 kinds (scalar assignments through operator= and constructors with boundary values, strings, list/array/map construction from other variables, assign incl. self, copy, clear, swap, mutable accessors followed by a modification incl. type-converting accesses and two-level nested modifications). "
+    "rule": "opfuzz: histories of 2..size ops from 24 kinds (scalar assignments through operator= and constructors with boundary values, strings incl. decimal texts up to 2^64-1, assignment from an element nested in another or the same variable, list/array/map construction from other variables, assign incl. self, copy, clear, swap, mutable accessors followed by a modification incl. type-converting accesses and two-level nested modifications). "
             "Non-trivial = a mutable access on a variable whose payload was shared with another variable at that moment AND some value reached nesting depth >=2 (container inside container); distinct by case text hash.",
-    "assumptions": ["equality with copies is checked for fresh copies (array Variants compare by payload identity)", "double values other than NaN", "no self-containment"],
+    "assumptions": ["equality is checked between a variable and its copies (fresh ones, and ones detached from the shared payload by an unmodifying mutable access), not between independently built equal values", "double values other than NaN", "no self-containment"],
     "parts": [opf("variant", ["harness/c07_variant.cpp"], {"cases": 600000, "maxsize": 30}, {"cases": 2000000, "maxsize": 80, "workers": 16})],
 }
 
